@@ -4,7 +4,7 @@ import ast
 
 from ..astq import is_name, is_self_attr, parse_fixture
 from ..callgraph import CallGraph
-from ..core import AnalysisError, norm, walk_local, dotted, FuncInfo
+from ..core import order, AnalysisError, norm, walk_local, dotted, FuncInfo
 from ..pairing import contextvars_of
 
 # operations of the property: activate / call / deactivate
@@ -208,19 +208,17 @@ def run(repo, chk):
     ok = len(rets) == 1 and isinstance(rets[0].value, ast.Call) and norm(rets[0].value.func) in ("type(self)", "HandlerCollection") \
         and not is_name(rets[0].value, "self")
     chk.ob("R08.1", "overlay.HandlerCollection.plus:returns-new-collection", ok, pl.where, "plus builds a new collection (the current one stays as other contexts see it)")
-    pr = repo.func("overlay.HandlerCollection.proceed")
-    forked_before_register = False
-    for n in walk_local(pr.node):
-        if isinstance(n, ast.If) and "is_template" in norm(n.test) and any(norm(s) == "acc = acc.fork()" for s in n.body):
-            # the register call must come after this If in the same block
-            par = n._parent
-            blk = par.body if n in getattr(par, "body", []) else getattr(par, "orelse", [])
-            idx = blk.index(n)
-            forked_before_register = any("itor.register(acc" in norm(s) for s in blk[idx + 1:])
-    chk.ob("R08.1", "overlay.HandlerCollection.proceed:templates-forked", forked_before_register, pr.where,
+    from .proceed_shape import proceed_shape
+    P = proceed_shape(repo)
+    pr = P.pr
+    # a template (user-created) accumulator is never registered as such: on every fit it is forked first
+    ok = len(P.forks) == 1 and len(P.regs) == 1 and any(f"{P.acc}.template" in c.split(" or ") for c in P.xconds(P.forks[0])) \
+        and order(P.forks[0]) < order(P.regs[0]) and is_name(P.regs[0].args[0] if P.regs[0].args else None, P.acc) \
+        and [c for c in P.xconds(P.forks[0]) if f"{P.acc}.template" not in c.split(" or ")] == P.xconds(P.regs[0])
+    chk.ob("R08.1", "overlay.HandlerCollection.proceed:templates-forked", ok, pr.where,
            "user-created (template) accumulators are forked before anything is accumulated for a call")
-    ok = any(isinstance(n, ast.Assign) and norm(n) == "itor = Interactor(fn)" for n in walk_local(pr.node)) and \
-        any(isinstance(n, ast.Assign) and norm(n.value) == "HandlerCollection(next_selectors)" for n in walk_local(pr.node))
+    ok = len(P.itor_defs) == 1 and norm(P.itor_defs[0].value) == f"Interactor({P.fn})" and order(P.itor_defs[0]) < order(P.loop) \
+        and P.inner is not None and len(P.inits) == 1 and order(P.inits[0]) < order(P.loop) and not P.others
     chk.ob("R08.1", "overlay.HandlerCollection.proceed:fresh-per-call", ok, pr.where, "every call gets its own Interactor and its own inner collection")
     # module-level containers written at run time must be in the exemption table
     seen_states = {}
